@@ -1519,8 +1519,10 @@ class TaskPool:
                 c_task = self.spawn_task(c_name, c_point, itask.flow_nums)
 
             tasks: List[TaskProxy]
-            if c_task is not None:
+            if c_task is not None or is_abs:
                 # Have child task, update its prerequisites.
+                # (Absolute trigger: update the other pool instances even if
+                # the first-listed child cannot be spawned, e.g. already run.)
                 if is_abs:
                     # NOTE: Absolute triggers can have an infinite number of
                     # graph children, so only the first match is listed. We
@@ -1532,7 +1534,7 @@ class TaskPool:
                         only_match_pool=True,
                     )
                     tasks = self.get_itasks(matched)
-                    if c_task not in tasks:
+                    if c_task is not None and c_task not in tasks:
                         tasks.append(c_task)
                 else:
                     tasks = [c_task]
